@@ -245,6 +245,8 @@ def make_case(rnd):
             expect = False
     doc = dg.ser(tree, default_ns=rnd.random() < 0.3)
     cls = xmlschema.XMLSchema11 if rnd.random() < 0.3 else xmlschema.XMLSchema10
+    if cls is xmlschema.XMLSchema11:
+        dg.mark_inheritable(g, rnd)
     return cls, g.xsd(), doc, expect, label
 
 
@@ -316,6 +318,8 @@ def run_shard(desc):
                 tree = g.inst()
                 fs = dg.applicable_faults(g, tree)
                 cls = xmlschema.XMLSchema11 if rnd.random() < 0.3 else xmlschema.XMLSchema10
+                if cls is xmlschema.XMLSchema11:
+                    dg.mark_inheritable(g, rnd)
                 xsd = g.xsd()
                 recs = []
                 for kind in sorted({f[0] for f in fs}):
